@@ -234,6 +234,7 @@ def finish(prop, level, tier, seed, merged, failures, assumptions, t0, extra_cov
     """apply known findings, write evidence, print lines, return exit code."""
     known = load_known()
     outdir = os.path.join(VERIF, "out", "replays", prop)
+    shutil.rmtree(outdir, ignore_errors=True)
     os.makedirs(outdir, exist_ok=True)
     seen_sig = {}
     new_viol = []
